@@ -226,3 +226,13 @@ Proof.
       intros x Hx; specialize (He x Hx); cbn [klt] in He; lia.
   - replace (ekey e <=? k) with true by lia. cbn [negb app]. rewrite IH. reflexivity.
 Qed.
+
+(* ---- example histories used by the non-vacuity Examples of Properties_C01.v -------------------------------- *)
+Definition ex_ops_map : list op :=
+  [OIns 5 50; OIns 3 30; OIns 8 80; OIns 1 10; OIns 4 40; OIns 7 70; OIns 9 90; OIns 2 20;
+   OHint 0 0 1; OHint 99 10 100; OHint 3 3 33; ORemAt 4; ORemKey 5; OFind 9; OHas 5; OCount 3;
+   OFront; OBack; ORemFront; ORemBack; OSel true; OIns 100 1; OIns 4 44; OBulk; OSel false; OCopy].
+Definition ex_ops_multi : list op :=
+  [OIns 5 1; OIns 5 2; OIns 3 3; OIns 5 4; OHint 1 5 5; OHint 0 3 6; OHint 9 7 7; OIns 3 8;
+   OCount 5; OFind 5; ORemKey 5; OCount 5; OFind 3; ORemAt 2; OBack].
+
